@@ -37,9 +37,9 @@ func c12Cfg() *DeclCfg {
 	return &DeclCfg{
 		Kinds: []string{"bool", "int", "int8", "int16", "int32", "int64", "uint", "uint8", "uint16", "uint32", "uint64", "float32", "float64",
 			"string", "string", "string", "duration", "[]int", "[]string", "[]string", "[]float64", "[]uint8", "map[string]int", "map[string]string", "map[string]string",
-			"map[int]string", "map[string]bool", "map[string]float64", "*int", "*string", "*bool", "*uint16", "um", "func(string)", "[]bool", "filename"},
+			"map[int]string", "map[string]bool", "map[string]float64", "*int", "*string", "*bool", "*uint16", "um", "func(string)", "[]bool", "filename", "ulist"},
 		MinOpts: 1, MaxOpts: 5, MaxGroups: 2, MaxSub: 2, MaxCmds: 3, MaxDepth: 3, Exec: true,
-		Defaults: true, Hidden: true, NoIni: true, IniName: true, Namespaces: true, Base: true, Init: false, Descriptions: true, Choices: false,
+		Defaults: true, Hidden: true, NoIni: true, IniName: true, Namespaces: true, Base: true, Init: false, Descriptions: true, Choices: false, DottedCmds: true, MultiLine: true,
 		ParserOpts: []uint{0, optHelpFlag, optHelpFlag | optPassDoubleDash, optIgnoreUnknown},
 	}
 }
@@ -102,7 +102,7 @@ func (propC12) Gen(r *Rng, idx int, tier string) *Scenario {
 	}
 	nb := 1
 	br := r.Fork("boots")
-	if br.Chance(1, 4) {
+	if br.Chance(1, 3) {
 		nb = br.Range(2, 3)
 	}
 	for i := 0; i < nb; i++ {
@@ -172,7 +172,8 @@ func (propC12) Judge(sc *Scenario) *Verdict {
 		s2.Ops = append(s2.Ops, b.Stores...)
 		file := ""
 		if b.ViaFile {
-			file = fmt.Sprintf("cfg%d.ini", i)
+			file = "cfg.ini" // every boot saves to the same path, as a program would
+			_ = i
 		}
 		w := len(s2.Ops)
 		s2.Ops = append(s2.Ops, Op{Kind: "iniwrite", IniOpts: b.IniOpts, File: file})
